@@ -137,7 +137,8 @@ class Harness:
         cls = T.CLASSES[(kind, pers)] if case.get('stateful') else _plain(kind, pers)
         plan = {'cls': cls.__name__, 'n': case.get('n', 0), 'fault': case.get('fault', 'none'),
                 'arm_text': ARM_TEXT[kind], 'repo': REPO, 'target_files': [TARGETS_FILE],
-                'out_dir': cdir, 'sock': self.sock_path, 'pause_bound': 15}
+                'out_dir': cdir, 'sock': self.sock_path, 'pause_bound': 15,
+                'granularity': case.get('granularity', 'line')}
         self._write_plan(plan)
         kw = {'init_state': case.get('init_state', 0)}
         if kind == 'remote':
